@@ -179,6 +179,9 @@ func (i *Interpreter) Show(arg string) error {
 
 // Load loads source files in a pathset and analyzes them together.
 func (i *Interpreter) Load(pathset string) error {
+	if _, ok := i.sourceFragments[pathset]; ok {
+		return fmt.Errorf("%s is already loaded", pathset)
+	}
 	i.resetInteractiveDefs("")
 	var units []parse.SourceUnit
 	for _, path := range strings.Split(pathset, ",") {
